@@ -56,9 +56,6 @@ impl Outcome {
     pub fn stat(&mut self, k: &str, n: i64) {
         *self.stats.entry(k.to_string()).or_insert(0) += n;
     }
-    pub fn has_sig(&self, sig: &str) -> bool {
-        self.findings.iter().any(|f| f.sig == sig)
-    }
 }
 
 pub struct RejListener {
@@ -79,6 +76,8 @@ pub struct Env {
     pub sim: Sim,
     pub wparts: Vec<(DomainParticipantAsync, TopicAsync, PublisherAsync)>,
     pub writers: Vec<Option<DataWriterAsync<Msg>>>,
+    /// kept alive for the duration of the scenario
+    #[allow(dead_code)]
     pub rpart: (DomainParticipantAsync, TopicAsync, SubscriberAsync),
     pub reader: DataReaderAsync<Msg>,
     pub rej_log: Arc<Mutex<Vec<SampleRejectedStatus>>>,
